@@ -24,4 +24,13 @@ PROPS = {
         design_ref="6/C35",
         modelled=["src/ast.rs: OffsetBacking::truncate (i16,u16), Offset::new, Offset::new_trunc, Offset::get"],
     ),
+    "C06": dict(
+        title="Instruction decoding is the exact inverse of encoding",
+        props="C06", areas=["instr"],
+        technique="Coq proof by complete finite sweep (all 65536 words, all valid instructions; vm_compute lifted to a bounded forall) + exhaustive model/implementation correspondence",
+        level_text="The domain is finite: theorems C06_* hold for all 65536 words and all ~40k representable instructions of the model (boolean check computed by the kernel, lifted with forall_range); classify (spec/IsaEncoding.v) is an independent ISA format table. decode and encode of the implementation are compared with the model on every word and every representable instruction in both tiers, so the theorems transfer to the code on the whole domain.",
+        level_note="Trusted: Coq kernel incl. vm_compute, extraction, driver/harness glue (harness enumerates instructions through the public constructors). Modelled by hand: join_bits/slice/interpret (model/Instr.v); opcode constants regenerated from src/ast/sim.rs.",
+        design_ref="6/C06", exhaustive_quick=True, exhaustive_thorough=True,
+        modelled=["src/ast/sim.rs: SimInstr::{opcode,encode,decode}, join_bits, DecodeUtils::{slice,assert_equals,interpret}, FromBits for Reg/IOffset/Offset<u16>"],
+    ),
 }
